@@ -102,7 +102,10 @@ class C12(Property):
         cases = []
         n_cache = (n * 2) // 5
         n_clean = max(2, n // 100)
-        for _ in range(n - n_cache - n_clean):
+        n_free = max(4, n // 40)
+        for _ in range(n_free):
+            cases.append(self._gen_free(rng))
+        for _ in range(n - n_cache - n_clean - n_free):
             cases.append(self._gen_wheel(rng))
         for _ in range(n_cache):
             cases.append(self._gen_cache(rng))
@@ -239,16 +242,51 @@ class C12(Property):
             ops.insert(0, ["add", 0, 2])
         return {"kind": "cleaner", "ops": ops}
 
+    def _gen_free(self, rng):
+        """goroutines calling the wheel concurrently while ticks are delivered (delays >= one interval)"""
+        ns = rng.choice([1, 2, 3, 4, 5, 8])
+        interval = 1000
+        nthreads = rng.randint(2, 6)
+        shared = [100, 101]
+        threads = []
+        for t in range(nthreads):
+            own = [10 * t, 10 * t + 1]
+            script = []
+            for _ in range(rng.randint(8, 30)):
+                k = rng.choice(shared) if rng.random() < 0.25 else rng.choice(own)
+                p = rng.choice([0, 0, 0, 1, 1, 20, 100, 300])
+                r = rng.random()
+                if r < 0.45:
+                    script.append(["set", k, rng.randrange(1000), self._delay(rng, ns, interval, False), p])
+                elif r < 0.8:
+                    script.append(["move", k, self._delay(rng, ns, interval, False), p])
+                else:
+                    script.append(["remove", k, p])
+            threads.append(script)
+        return {"kind": "free", "n": ns, "interval": interval, "threads": threads,
+                "ticks": rng.randint(20, 60), "tick_pause_us": rng.choice([0, 1, 50, 100, 200])}
+
     # ------------------------------------------------------------------ execution
     def execute(self, cases, ctx):
-        rc, out, res = vlib.go_run(self.bin, cases, tag="c12", timeout=900)
+        return self._execute(self.bin, cases)
+
+    def _execute(self, binpath, cases, env=None):
+        rc, out, res = vlib.go_run(binpath, cases, tag="c12", timeout=900, env=env)
         if rc != 0 or len(res) != len(cases):
-            raise ExecError("c12 executor rc=%s: %s" % (rc, out[-2000:]))
+            raise ExecError("c12 executor rc=%s: %s" % (rc, out[-3000:]))
         obs = []
         for c, r in zip(cases, res):
             if r.get("err"):
                 raise ExecError("c12 executor: case %s: %s" % (r.get("id"), r["err"]))
             kind = c.get("kind", "wheel")
+            if kind == "free":
+                fr = r.get("free") or {}
+                th = fr.get("threads") or []
+                if len(th) != len(c["threads"]) or any(len(a or []) != len(b) for a, b in zip(th, c["threads"])) \
+                        or any(o["r"] != 0 for a in th for o in a):
+                    raise ExecError("c12 executor: free case %s: incomplete or rejected calls" % r.get("id"))
+                obs.append({"obs": [], "free": fr})
+                continue
             steps = r.get("obs") or []
             if kind != "new" and len(steps) != len(c["ops"]):
                 raise ExecError("c12 executor: case %s: %d observations for %d operations" % (r.get("id"), len(steps), len(c["ops"])))
@@ -320,6 +358,13 @@ class C12(Property):
     def coq_case(self, case, obs):
         kind = case.get("kind", "wheel")
         steps = obs["obs"]
+        if kind == "free":
+            evs = []
+            for script, log in zip(case["threads"], obs["free"]["threads"]):
+                for o, l in zip(script, log):
+                    evs.append("(%s, %s, %s)" % (cz(l["s"]), cz(l["e"]), self._op(o[:-1])))
+            tks = ["(%s, %s, %s)" % (cz(t["s"]), cz(t["e"]), self._fired(t["f"])) for t in obs["free"]["ticks"]]
+            return "CFree %s %s %s %s" % (cz(case["n"]), cz(case["interval"]), clist(evs), clist(tks))
         if kind == "wheel":
             ops = clist([self._aop(o) for o in case["ops"]])
             ob = clist(["(%s, %s)" % (self._fired(s["f"]), RES[s["r"]]) for s in steps])
@@ -346,6 +391,11 @@ class C12(Property):
         fired = any(s.get("f") for s in obs["obs"])
         if kind == "new":
             return True
+        if kind == "free":
+            # some call overlapped a tick or another call, and something fired
+            iv = [(o["s"], o["e"]) for th in obs["free"]["threads"] for o in th] + \
+                 [(t["s"], t["e"]) for t in obs["free"]["ticks"]]
+            return any(t["f"] for t in obs["free"]["ticks"]) and any(e - s > 1 for s, e in iv)
         if kind == "cache":
             return fired and any(x[0] == "remove" for s in obs["obs"] for x in (s.get("t") or []))
         if kind == "cleaner":
@@ -390,8 +440,20 @@ class C12(Property):
             if any(len([x for x in (s.get("t") or []) if x[0] == "remove"]) > 0 and o[0] in ("set", "setd", "take")
                    for o, s in zip(case["ops"], obs["obs"])):
                 fs.append("evicting_set")
+        if kind == "free":
+            fs.append("threads=%d" % len(case["threads"]))
+            fs.append("overlaps=%d" % min(9, sum(1 for th in obs["free"]["threads"] for o in th if o["e"] - o["s"] > 1)))
+            fs.append("fired=%d" % min(9, sum(len(t["f"]) for t in obs["free"]["ticks"])))
+            return fs
         fs.append("fired=%d" % min(9, sum(len(s.get("f") or []) for s in obs["obs"])))
         return fs
+
+    def shrink_candidates(self, case):
+        cands = Property.shrink_candidates(self, case)
+        n = len(case.get("ops") or [])
+        if n > 300:     # very long histories (cleaner schedule, several revolutions): few, large candidates per round
+            cands = cands[:max(6, 20000 // n)]
+        return cands
 
     def describe_failure(self, case, obs):
         kind = case.get("kind", "wheel")
@@ -400,10 +462,41 @@ class C12(Property):
                     "or a timer fired at a tick other than its due tick, twice, with a stale value, or not at all")
         if kind == "cleaner":
             return "cache cleaner: a retry timer fired at a tick other than its due tick, twice or not at all"
+        if kind == "free":
+            return ("concurrent SetTimer/MoveTimer/RemoveTimer/ticks: the callbacks observed are not those of any order of "
+                    "the calls that is consistent with their real-time order")
         if kind == "new":
             return "NewTimingWheel accepted a configuration outside numSlots >= 1, interval >= 1, execute != nil (or rejected one inside)"
         return ("a timer fired at a tick other than its due tick, twice, not at all, a removed/drained timer fired, "
                 "or a call returned the wrong error class")
+
+    # ------------------------------------------------------------------ thorough tier: -race free-run
+    def extra(self, ctx):
+        if ctx.tier != "thorough":
+            return []
+        import random
+        ok, res = vlib.go_build("c12race", overlay=OVERLAY, race=True)
+        if not ok:
+            raise ExecError("c12race does not build: %s" % res[-2000:])
+        rng = random.Random(ctx.seed * 31 + 5)
+        cases = [self._gen_free(rng) for _ in range(400)]
+        for i, c in enumerate(cases):
+            c["id"] = i
+        ctx.checker_cmds.append("harness/bin/c12race (go build -race): 400 free-running histories, 2..6 goroutines + ticker")
+        try:
+            obs = self._execute(res, cases, env={"GORACE": "halt_on_error=1 exitcode=66"})
+        except ExecError as e:
+            if "DATA RACE" in str(e):
+                return [{"what": "data race in core/collection under concurrent SetTimer/MoveTimer/RemoveTimer/ticks",
+                         "replay": str(e)[-3000:]}]
+            raise
+        terms = [self.coq_case(c, o) for c, o in zip(cases, obs)]
+        rs = vlib.coq_eval_cases(self.id, self.check_module, terms)
+        bad = [(c, o) for c, o, (a, p) in zip(cases, obs, rs) if not p]
+        ctx.notes.append("race monitor: %d free-running histories, %d calls overlapping another call or a tick, %d not linearisable"
+                         % (len(cases), sum(1 for o in obs for th in o["free"]["threads"] for x in th if x["e"] - x["s"] > 1),
+                            len(bad)))
+        return [{"what": self.describe_failure(c, o), "replay": {"case": c, "observed": o}} for c, o in bad[:3]]
 
 
 PROPERTY = C12()
